@@ -649,3 +649,10 @@ package keeper
 //@      ctxOf(raw, reqContextID).BatchState == BATCHCOMPLETED && len(ctxOf(raw, reqContextID).Providers) == 1 && ordinary(ctxOf(raw, reqContextID).Consumer) &&
 //@      raw[KNewQ(ctxHeight(ctx), reqContextID)] == idVal(reqContextID) && raw[KNewH(reqContextID)] == hVal(ctxHeight(ctx)) && raw[KExpH(reqContextID)] == bnil
 //@ ensures [C10,C01] the_immediate_batch_is_the_only_batch_of_this_one_shot_context: err == NoErr ==> raw[KNewQ(ctxHeight(ctx), reqContextID)] == bnil && raw[KNewH(reqContextID)] == bnil
+
+// ---------------------------------------------------------------- genesis import of one binding (C19: price terms and ownership indexes are rebuilt)
+//@ func (Keeper).SetServiceBindingForGenesis
+//@ props C19 C15
+//@ modifies raw
+//@ ensures [C19,C15] record_price_terms_and_ownership_indexes_written: err == NoErr ==> raw == wrBind1(old(raw), svcBinding)
+//@ ensures [C19] fails_only_on_unparsable_pricing: (err == NoErr) == (parsePricingErr(svcBinding.Pricing) == NoErr)
